@@ -323,6 +323,91 @@ Verdict judge(const Plan &plan, const sim::Shm *shm, const ChildExit &ex, const 
         }
     }
 
+    // ---- C02 slice "two pipelines": each pipeline on its own --------------------------
+    if (plan.target == "dual") {
+        if (v.ok && !complete)
+            fail(v, "incomplete", "the run did not reach its end");
+        for (int k = 0; k < 2 && v.ok; k++) {
+            Node root;
+            root.kind = "pipe";
+            Node f;
+            f.kind = "pattern";
+            f.a = plan.cfg[k ? "pattern_b" : "pattern_a"].toInt();
+            f.id = 1;
+            Node r;
+            r.kind = "rec";
+            r.a = k;
+            r.id = 2;
+            root.kids.push_back(f);
+            root.kids.push_back(r);
+            Model model;
+            std::set<int> seen;
+            std::map<int, int> last;
+            for (uint32_t i = 0; i < N && v.ok; i++) {
+                const sim::Event &e = shm->events[i];
+                if (e.kind != E_DELIVER || (int)e.a != k)
+                    continue;
+                int cid = (int)e.b;
+                auto it = calls.find(cid);
+                std::string who = "pipeline " + std::string(k ? "B" : "A") + ": message " + std::to_string(cid >> 16) + "." + std::to_string(cid & 0xffff);
+                if (it == calls.end() || ((it->second.producer & 1) != k)) {
+                    fail(v, "phantom", who + " was never sent to this pipeline");
+                    break;
+                }
+                Call &c = it->second;
+                if (!seen.insert(cid).second) {
+                    fail(v, "duplicate", who + " delivered twice");
+                    break;
+                }
+                if (last.count(c.producer) && last[c.producer] > c.opidx) {
+                    fail(v, "reordered", who + " delivered after a later message of the same thread");
+                    break;
+                }
+                last[c.producer] = c.opidx;
+                Content got;
+                if (!parse_content(sim::ev_str(shm, e), got)) {
+                    fail(v, "machinery-parse", "cannot parse delivery content");
+                    break;
+                }
+                Msg m;
+                m.cid = cid;
+                m.type = c.op->a;
+                m.line = cid + 1;
+                const char *xfile = kFiles[(c.op->c & 0xff) % kNumFiles];
+                const char *xfunc = kFunctions[((c.op->c >> 8) & 0xff) % kNumFunctions];
+                m.file = xfile ? xfile : "";
+                (void)xfunc;
+                m.function = "void Cls" + std::to_string(cid) + "::fn" + std::to_string(cid) + "(int)";
+                m.category = kCategories[c.op->b % kNumCategories];
+                m.message = c.text;
+                int flags = c.op->c >> 16;
+                if (flags & 1) {
+                    m.formatted = true;
+                    m.fmt = "PRE<" + std::to_string(cid) + ">";
+                }
+                model.out.clear();
+                if (f.a == 100) {
+                    Delivery d;
+                    d.text = "Cls" + std::to_string(cid) + "::fn" + std::to_string(cid) + "|" + c.text;
+                    model.out.push_back(d);
+                } else {
+                    model.eval(root, m);
+                }
+                std::string field;
+                std::string have = got.formatted ? got.fmt : got.message;
+                if (model.out.empty() || !got.formatted || !match_with_field(model.out[0].text, 0, have, 0, &field))
+                    fail(v, "wrong-text",
+                         who + ": expected '" + clip(model.out.empty() ? std::string() : model.out[0].text) + "' got '" + clip(have)
+                                 + "' (the other pipeline was formatting at the same time)");
+            }
+            for (auto &kv : calls)
+                if (v.ok && complete && (kv.second.producer & 1) == k && kv.second.ret >= 0 && !seen.count(kv.first))
+                    fail(v, "lost", "pipeline " + std::string(k ? "B" : "A") + ": message " + clip(kv.second.text, 40) + " was not delivered");
+        }
+        v.probes["two_pipeline_runs"] = 1;
+        return v;
+    }
+
     // ---- pipeline scan: mutual exclusion, entries, deliveries ---------------------
     const int NONE = -0x7fffffff;
     int current = NONE; // call id inside the pipeline (-1: a message that is not the plan's, e.g. a Qt warning)
